@@ -706,7 +706,13 @@ def gen_duplex_cases(r, ctx):
             sscript = ["a%d" % r.choice([1, 3, 7, 100, 64000]) for _ in range(r.below(6))] + ["a7*9000"]
         else:
             rscript = [r.choice(ev_r) for _ in range(r.below(14))]
-            sscript = [r.choice(ev_s) for _ in range(r.below(10))]
+            # accept events move one byte (or none) each, so that where a fault falls depends on the BYTE offset only,
+            # not on how the code cuts a frame into write()/send() calls (which is not part of the claim)
+            sscript = []
+            for _ in range(r.below(5)):
+                sscript += ["a1*%d" % r.range(1, 30)] + (["a0"] if r.chance(1, 4) else []) + \
+                           [r.choice([e for e in ev_s if e[0] != "a"])]
+            sscript += ["a1*%d" % r.below(40)] if r.chance(1, 2) else []
         pool = ["r", "r", "i", "n"] + (["s5", "g", "s9"] + ([] if pipe else [faults.RESET.replace("e", "f"), "f9"])
                                         if mode == "pollfault" else [])
         pscript = [r.choice(pool) for _ in range(r.range(0, 12))] + (["r*6"] if mode != "pollfault" else [])
@@ -894,6 +900,19 @@ def same_but_left(want):
     return post
 
 
+def same_but_send_events_left(want):
+    """duplex results agree in everything but the number of send-script events left (= how many send() calls the
+    code needed, which is not part of the claim)"""
+    def split(text):
+        head, _, tail = text.rpartition(" | ")
+        t = tail.split(" ")
+        return head, t[:2] + t[3:]
+
+    def post(got):
+        return None if split(got) == split(want) else want[:400]
+    return post
+
+
 def same_frame(ws, corr):
     """the write() calls of one send(): what is claimed (and compared) is their CONCATENATION = the frame; whether
     the code cuts it into the same calls as the model's sendWrites is recorded as information only"""
@@ -1007,7 +1026,7 @@ def feed_case(case, batch, corr, seen_writes):
         res = run_duplex(case, outs)
         want = " ".join(res["results"]) + " | %s %d %d %d %d x%s" % (
             res["closed"], res["rleft"], res["sleft"], res["pleft"], res["rest"], res["sent"].hex())
-        batch.add(duplex_line(case, outs), want, case, "duplex")
+        batch.add(duplex_line(case, outs), want, case, "duplex", post=same_but_send_events_left(want))
         kinds = tuple(x.split(":")[0] for x in res["results"])
         for o, x in zip(case["ops"], kinds):
             corr.count("impl:duplex:%s:%s" % (o[0], x))
